@@ -44,3 +44,14 @@ META["C03"] = M(
          "no_dispatch} applied to generated operator trees and plain arrays, scalars of type int/float/complex/numpy scalar/0-d "
          "array incl. zero and negative; evaluated with cola's public API and, independently, on dense matrices; plus shape-"
          "mismatched operand pairs that must raise; distinct = canonical expression structure (ops, kinds, shapes, dtypes, scalar types)")
+
+META["C04"] = M(
+    shards={"quick": 16, "thorough": 32}, budget={"quick": 100, "thorough": 900},
+    floors={"quick": {"evals": 30000, "distinct": 30000}, "thorough": {"evals": 150000, "distinct": 150000}},
+    required=["lookup"],
+    rule="complete enumeration of the lattice (function x operator kind or ordered pair of kinds x declared annotation in "
+         "{none, SelfAdjoint, PSD, Stiefel, Unitary} x admitted algorithm class x omitted/explicit optional arguments x real/"
+         "complex, square and tall instances), each tuple executed on tiny instances with the dispatch tap armed, in two registry "
+         "configurations (plain import; after importing the optional modules that register into the same name registry); "
+         "distinct = distinct tuples; every tuple is non-trivial",
+    exhaustive=True)
